@@ -228,6 +228,19 @@ def gen(rng, nrng, tier):
                     # the order actually run must reach the bad stage
                     yield ("lev", {"r": r, "order": order, "allow": False, "cls": "indef"})
                     break
+    # sequences with an EXACTLY zero reflection coefficient at a stage >= 2 followed by non-zero ones: r = [1, a, a^2, ...]
+    # has k_2 = 0 exactly for dyadic a (a*a is exact); further stages are made non-trivial by perturbing later lags
+    for i in range(12 if tier == "quick" else 120):
+        cplx = bool(i % 2)
+        a = [0.75, -0.5, 0.25, 0.5][i % 4] * (1j if (cplx and i % 4 == 1) else 1)
+        n = int(nrng.integers(4, 9))
+        r = np.array([a ** k for k in range(n)], dtype=complex if cplx else float)
+        if cplx:
+            r = r.astype(complex)
+        r[3:] = r[3:] + (np.array([0.1875, -0.0625, 0.03125, 0.0, 0.015625, 0.0][: n - 3]))
+        se = _stage_errors(r)
+        if min(se) > 1e-6:
+            yield ("lev", {"r": r, "order": None, "allow": bool(i % 2), "cls": "pd", "q": int(nrng.integers(1, n))})
     n_sol = 60 if tier == "quick" else 800
     for i in range(n_sol):
         n = int(nrng.integers(1, 13 if tier == "quick" else 25))
